@@ -160,4 +160,6 @@ def run_case(ctx, rng, index, casedir):
         if arrival is not None and -(-nrec // batch) >= 2:
             sigs.append(stable_hash([arrival, kind, cores, batch]))
     return {"sigs": sigs, "evals": nexec, "situations": dict(sit), "violations": viol,
-            "sample": {"records": nrec, "last_plan": wit}}
+            "sample": {"records": nrec, "last_plan": wit,
+                       "last_arrival_order_at_parent": (arrival or [])[:40],
+                       "last_event_kinds": dict(collections.Counter(e["ev"] for e in run["events"]))}}
